@@ -342,6 +342,14 @@ impl Prop for C10 {
         eval_input(i, obs)
     }
 
+    fn generator_counters() -> Vec<(String, u64)> {
+        use std::sync::atomic::Ordering::Relaxed;
+        vec![
+            ("noise-strings-generated".into(), crate::gen::stream::NOISE_GENERATED.load(Relaxed)),
+            ("noise-strings-rejected-by-precondition-filter".into(), crate::gen::stream::NOISE_REJECTED.load(Relaxed)),
+        ]
+    }
+
     fn to_kv(i: &Input) -> Kv {
         let mut kv = Kv::new();
         kv.put_u("source", i.source as u64).put_u("buffer", i.buffer as u64);
